@@ -14,7 +14,9 @@ def norm(ex, text):
     return r["canon"]
 
 
-def check_one(ctx, ex, it, derived, extra_args="", expect_error=False, tag=""):
+def check_one(ctx, ex, it, derived, extra_args="", expect_error=False, tag="", list_ok=True):
+    """list_ok: the trait list itself is well-formed (known traits, parsable arguments), so the macro knows which helper attributes belong to
+    the traits being derived even when derivation then fails"""
     src = it.render()
     owned = G.owned_names(derived)
     args = ", ".join(derived) + extra_args
@@ -35,6 +37,14 @@ def check_one(ctx, ex, it, derived, extra_args="", expect_error=False, tag=""):
         if got != exp:
             ctx.violation(key, "derivation failed and the re-emitted item lost or changed foreign content", dict(rep, expected=exp, got=first, error=errs[0].get("msg")))
             return False
+        if list_ok:
+            # the list was understood: exactly the owned attributes are gone (a leftover helper attribute would cascade into
+            # `cannot find attribute` errors next to the real one)
+            exp2 = norm(ex, it.render(lambda a: a.name is None or a.name not in owned))
+            if first != exp2:
+                ctx.violation(key, "derivation failed after the trait list was read, yet the re-emitted item is not the input minus the attributes owned by %s" % sorted(owned),
+                              dict(rep, expected=exp2, got=first, error=errs[0].get("msg")))
+                return False
         return True
     exp = norm(ex, it.render(lambda a: a.name is None or a.name not in owned))
     if first != exp:
@@ -77,8 +87,11 @@ def error_inputs(ctx, ex, rng, n):
     for i in range(n):
         it, derived = G.random_item(rng)
         mode = i % 5
-        if mode == 0:
-            ok = check_one(ctx, ex, it, derived + ["NoSuchTrait"])
+        if mode == 0 and i % 2 and it.is_enum:
+            # a struct-only trait on an enum: the list is fine, the entry fails; helper attributes of the other listed traits are still owned
+            ok = check_one(ctx, ex, it, derived + [rng.choice(["Add", "SubAssign", "Neg", "Deref", "DerefMut", "Not", "Shl"])])
+        elif mode == 0:
+            ok = check_one(ctx, ex, it, derived + ["NoSuchTrait"], list_ok=False)
         elif mode == 1 and not it.is_enum:
             it2, _ = G.random_item(rng, derived=["Deref"])
             it2.variants[0].fields = it2.variants[0].fields * 2 if it2.variants[0].fields else it2.variants[0].fields
@@ -90,7 +103,7 @@ def error_inputs(ctx, ex, rng, n):
             it.attrs.append(G.Attr("#[debug(ignore)]", "debug")); it.attrs.append(G.Attr("#[debug(ignore)]", "debug"))
             ok = check_one(ctx, ex, it, derived + (["Debug"] if "Debug" not in derived else []))
         else:
-            ok = check_one(ctx, ex, it, derived, extra_args=", 123 456")
+            ok = check_one(ctx, ex, it, derived, extra_args=", 123 456", list_ok=False)
         cnt += 1
     return cnt
 
